@@ -84,5 +84,5 @@ func literalSet(w *ecs.World, tp reflect.Type, e ecs.Entity, id ecs.ID, c uint64
 	case ptrRelType:
 		return setLiteralRel(w, e, id, c), true
 	}
-	return nil, false
+	return nil, false // PtrD has no literal shape: the heap path is used
 }
